@@ -35,6 +35,8 @@ pub struct World {
     /// (subscriber, entry) pairs of `SubSpec::on_notify_ops` that have already run
     notify_ops_done: std::sync::Mutex<std::collections::HashSet<(SubId, usize)>>,
     mw_objs: std::sync::Mutex<HashMap<CompId, Arc<dyn Middleware<St, Act> + Send + Sync>>>,
+    #[allow(clippy::type_complexity)]
+    fn_objs: std::sync::Mutex<HashMap<SubId, Arc<rs_store::FnSubscriber<Box<dyn Fn(&St, &Act) + Send + Sync>, St, Act>>>>,
 }
 
 impl World {
@@ -51,6 +53,7 @@ impl World {
             sel_objs: Default::default(),
             notify_ops_done: Default::default(),
             mw_objs: Default::default(),
+            fn_objs: Default::default(),
         })
     }
     pub fn store(&self, ix: StoreIx) -> Option<Arc<TStore>> {
@@ -523,10 +526,21 @@ fn do_op(w: &Arc<World>, op: &Op) -> Res {
             let spec = w.scn().sub(*sub).clone();
             let subscription: Box<dyn Subscription> = match spec.kind {
                 SubKind::Direct => {
-                    let obj = slock(&w.sub_objs)
+                    let inner = slock(&w.sub_objs)
                         .entry(*sub)
                         .or_insert_with(|| Arc::new(SSub { w: w.clone(), sub: *sub, chained: Default::default() }))
                         .clone();
+                    let obj: Arc<dyn Subscriber<St, Act> + Send + Sync> = if spec.fn_wrapped {
+                        slock(&w.fn_objs)
+                            .entry(*sub)
+                            .or_insert_with(|| {
+                                let f: Box<dyn Fn(&St, &Act) + Send + Sync> = Box::new(move |st: &St, a: &Act| inner.on_notify(st, a));
+                                Arc::new(rs_store::FnSubscriber::from(f))
+                            })
+                            .clone()
+                    } else {
+                        inner
+                    };
                     if spec.via_trait {
                         <TStore as Store<St, Act>>::add_subscriber(&*s, obj)
                     } else {
@@ -801,6 +815,7 @@ pub fn run_case(scn: Arc<Scenario>, log: Arc<std::sync::Mutex<LogInner>>) {
     }
     drop(subs);
     slock(&w.sub_objs).clear();
+    slock(&w.fn_objs).clear();
     slock(&w.sel_objs).clear();
     let stores: Vec<_> = slock(&w.stores).drain(..).collect();
     drop(stores);
